@@ -3,6 +3,7 @@ import Hoot.Oracle.BodyR
 import Hoot.Oracle.Heads
 import Hoot.Oracle.Expect
 import Hoot.Oracle.ReqHead
+import Hoot.Oracle.FlowO
 
 /-! Dispatch of the per-property oracles. -/
 
@@ -27,4 +28,7 @@ def oracleFor (pid : String) (c : TCase) : Verdict :=
   | "C02" => oracleC02 c
   | "C16" => oracleC16 c
   | "C17" => oracleC17 c
+  | "C09" => oracleC09 c
+  | "C10" => oracleC10 c
+  | "C12" => oracleC12 c
   | _ => noPanic c
